@@ -38,3 +38,4 @@ package offered
 //@ site (resource.Applicator).Apply(_, _, $o, $opts...)
 //@   assert [C08:no-apply-while-deleting] !meta.WasDeleted(d)
 //@   assert [C02:crd-apply-controllable] $o == $crd && contains($opts, resource.MustBeControllableBy(d.GetUID()))
+//@   assert [C11,C02:the-crd-is-applied-whenever-it-is-controllable-so-it-ends-up-controlled-by-the-xrd] len($opts) == 2
